@@ -16,9 +16,6 @@
 #include "pre.h"
 #include "src/secp256k1.c"
 #include "post.h"
-#ifndef CT_MAX
-#define CT_MAX 8192
-#endif
 #include "ct.h"
 
 /* ------------------------------------------------------------------ address log */
